@@ -167,6 +167,12 @@ class ChunkLoopTrans(LoopTrans):
         if int(node.step_expr.value) == 0:
             raise TransformationError("Cannot apply a ChunkLoopTrans to "
                                       "a loop with a step size of 0.")
+        if abs(chunk_size) % abs(int(node.step_expr.value)) != 0:
+            raise TransformationError(
+                f"Cannot apply a ChunkLoopTrans to a loop whose step size "
+                f"({node.step_expr.value}) does not divide the chosen chunk "
+                f"size ({chunk_size}): the chunks would not be aligned with "
+                f"the iterations of the loop.")
 
         if len(node.loop_body.walk(CodeBlock)) != 0:
             raise TransformationError("Cannot apply a ChunkLoopTrans to "
